@@ -68,6 +68,9 @@ struct FuncSel {
     contract_ref: String,
     #[serde(default)]
     loop_spec: Vec<LoopSpec>,
+    /// contracts for fn items nested in the body (spliced between their signature and body)
+    #[serde(default)]
+    nested: Vec<NestedSpec>,
     /// optional text put in front of the function (e.g. a verifier attribute)
     #[serde(default)]
     prefix: String,
@@ -91,6 +94,12 @@ struct LoopSpec {
     /// that the invariant can refer to the position; an annotation, not executable code
     #[serde(default)]
     iter_name: String,
+}
+
+#[derive(Deserialize, Debug, Clone)]
+struct NestedSpec {
+    name: String,
+    text: String,
 }
 
 #[derive(Deserialize, Debug)]
@@ -577,6 +586,24 @@ fn emit_fn(parts: FnParts, sel: &FuncSel, with_pub: bool, indent: usize, dropped
                 }
                 body = format!("{}{} : {}{}", &body[..ip], l.iter_name, &body[start..end], &body[end + 1..]);
             }
+        }
+        for n in &sel.nested {
+            // `fn NAME <..> ( params ) [-> T] {`  ->  contract in front of the `{`
+            let pat = format!("fn {} ", n.name);
+            let fp = body.find(&pat).unwrap_or_else(|| die(3, format!("lost anchor: nested fn {} of {} not found", n.name, sel.select)));
+            let open_par = fp + body[fp..].find('(').unwrap();
+            let mut depth = 0i32;
+            let mut close_par = open_par;
+            for (k, c) in body[open_par..].char_indices() {
+                if c == '(' { depth += 1; }
+                if c == ')' { depth -= 1; if depth == 0 { close_par = open_par + k; break; } }
+            }
+            let brace = close_par + body[close_par..].find('{').unwrap();
+            let mut spec = String::new();
+            for ln in n.text.trim().lines() {
+                let _ = writeln!(spec, "        {}", ln);
+            }
+            body = format!("{}\n{}{}", &body[..brace], spec, &body[brace..]);
         }
         // token-for-token check: the emitted body, re-lexed without loop specs, equals the source body
         let emitted_plain = {
